@@ -126,6 +126,15 @@ class Maker:
         self.np_rng = np.random.RandomState(rng.randint(0, 2 ** 31 - 1))
 
     def arr(self, shape, nan=0.1):
+        r = self.rng.random()
+        if r < 0.12:  # a 0/1 mask or an already normalised image: exact minimum 0 and maximum 1
+            a = (self.np_rng.random_sample(shape) < 0.5).astype(np.float64)
+            a.flat[0], a.flat[-1] = 0.0, 1.0
+            if self.rng.random() < 0.5 and a.size > 2:
+                a.flat[1:-1] = self.np_rng.randint(0, 9, size=a.size - 2) / 8
+            return a
+        if r < 0.2:  # constant / all zero
+            return np.full(shape, self.rng.choice([0.0, 1.0, 3.5]))
         a = self.np_rng.randint(1, 40, size=shape).astype(np.float64) / 4
         if nan and self.rng.random() < 0.3:
             m = self.np_rng.random_sample(shape) < nan
@@ -154,7 +163,8 @@ class Maker:
 
         names = ("A", "B")
         return Laser(self.struct(shape, names), calibration={n: self.calibration() for n in names},
-                     config=Config(10.0, 20.0, 0.25), info={"Name": "t", "k": "v"})
+                     config=Config(10.0, 20.0, 0.25),
+                     info=self.rng.choice([{"Name": "t", "k": "v"}, {"Name": "t", "File Path": "/x/y.npz", "File Version": "0.1"}]))
 
     def srrlaser(self):
         from pewlib.srr import SRRConfig, SRRLaser
@@ -274,7 +284,8 @@ def build_args(mk: Maker, qual, pnames, fn_sig):
             vals[name] = rng.choice([None, mk.config("SRRConfig" if "SRR" in (ann + qual) else "Config")]) if "None" in ann \
                 else mk.config("SRRConfig")
         elif name == "info":
-            vals[name] = rng.choice([{}, {"Name": "x", "a\tb": "c\td"}]) if "None" not in ann else rng.choice([None, {"k": "v"}])
+            vals[name] = rng.choice([{}, {"Name": "x", "a\tb": "c\td"}, {"File Path": "/p", "Name": "n"}]) if "None" not in ann \
+                else rng.choice([None, {"k": "v"}, {"File Path": "/p"}])
         elif name in ("path", "log_path", "log_file"):
             vals[name] = "PATH"
         elif name == "block":
@@ -359,6 +370,29 @@ class C19(Prop):
                 sigs[q] = {n: a for n, a in T.Translator.param_names(fn)}
             self._inv = {f["name"]: dict(f, sig=sigs[f["name"]]) for f in res}
         return self._inv
+
+    def extra_evidence(self):
+        """the per-(function, parameter) obligations computed by the Lean analysis on the regenerated IR"""
+        d = core.Driver()
+        try:
+            n = ok = 0
+            broken, unknown_calls = [], []
+            for name, f in sorted(self.inv().items()):
+                rep = d.call("c19.analyse", np=f["np"], prog=f["ir"])
+                w = {f["params"][i] for i in rep["write"]}
+                r = {f["params"][i] for i in rep["ret"]}
+                unknown_calls += [f"{name}: {x}" for x in f["diag"]]
+                for p in f["params"]:
+                    n += 1
+                    good = (p not in w or (name, p) in ALLOWED_WRITES) and (p not in r or alias_allowed(name, p, f["kind"]))
+                    ok += good
+                    if not good:
+                        broken.append(f"{name}({p})")
+        finally:
+            d.close()
+        return {"obligations": n, "discharged": ok,
+                "coverage": {"inventoried_functions": len(self.inv()), "function_parameter_obligations": n,
+                             "obligations_broken": broken[:50], "translator_unknown_calls": sorted(set(unknown_calls))[:50]}}
 
     def targeted(self, tier):
         for name in sorted(self.inv()):
